@@ -417,7 +417,9 @@ def mon_c02_reexec(t: Trace, crashes: int = 0) -> list[tuple[str, str]]:
                     before = {int(q.split(":")[0]) for q in parse_line(t.lines[last_rearm[(s, tt)] - 1])["queue"]}
                     if any(rid_ in before for rid_ in rows_since.get((s, tt), [])):
                         stale = ":stale-runtask-from-before-rearm"
-                hits.append((f"reexecuted-after:{recorded[(s, tt)]}{stale}",
+                sig_ = (f"reexecuted:stale-runtask-from-before-rearm:after-{recorded[(s, tt)]}" if stale
+                        else f"reexecuted-after:{recorded[(s, tt)]}")
+                hits.append((sig_,
                              f"task {s}.{tt} executed again (execution #{n}) after its result {recorded[(s, tt)]} was recorded, op {t.ops[k - 1]}"))
             oc = t.spec.stages[s].tasks[tt][min(n - 1, len(t.spec.stages[s].tasks[tt]) - 1)]
             if oc[0] in RECORDED:
@@ -729,7 +731,14 @@ def mon_c01(t: Trace) -> list[tuple[str, str]]:
     if fin["wf"] not in COMPLETE and not waiting_explicitly(fin) and ref["wf"] in COMPLETE:
         hits.append((f"{cls}stuck-after-crash:{at}@{k}", f"after a crash in {t.meta.get('crash_msg')} (after {k} commits) + restart + sweep + drain the workflow stays {fin['wf']} with stages {got['stages']}; uninterrupted run: {ref['wf']}"))
         return hits
-    if (got["wf"] != ref["wf"] or got["stages"] != ref["stages"]) and not race_dependent:
+    split_race = [i for i in sorted(split_skip_targets(t.spec)) if i < len(got["stages"]) and got["stages"][i] != ref["stages"][i]]
+    if split_race:
+        # F42: the crash / late redelivery reordered an OR-split's SkipStage against the other upstream's StartStage
+        hits.append(("outcome-differs:orsplit-skip-overtaken-by-other-upstream",
+                     f"crash in {t.meta.get('crash_msg')} after {k} commits: stage {split_race[0]} is {got['stages'][split_race[0]]} here and "
+                     f"{ref['stages'][split_race[0]]} uninterrupted (an OR-split upstream decided to skip it; the recovery reordered its SkipStage "
+                     f"against another upstream's StartStage); final {got['wf']} {got['stages']} vs {ref['wf']} {ref['stages']}"))
+    elif (got["wf"] != ref["wf"] or got["stages"] != ref["stages"]) and not race_dependent:
         hits.append((f"{cls}outcome-differs:{at}@{k}", f"crash in {t.meta.get('crash_msg')} after {k} commits: final {got['wf']} {got['stages']} vs uninterrupted {ref['wf']} {ref['stages']}"))
     # first-come joins (OR / DISCRIMINATOR / N_OF_M / MULTI_MERGE) hand their stage whatever upstream outputs exist at the
     # moment the join fires: the data such a stage (and everything downstream of it) sees depends on the delivery order even
